@@ -82,11 +82,15 @@ type V2Sessionless struct {
 }
 
 func newV2Sessionless(t transport.Transport, timeout time.Duration) *V2Sessionless {
+	// retries are bounded by the caller's context, not by a time budget of the
+	// back-off's own (the default gives up after 15 minutes)
+	retryBackoff := backoff.NewExponentialBackOff()
+	retryBackoff.MaxElapsedTime = 0
 	s := &V2Sessionless{
 		v2ConnectionShared: v2ConnectionShared{
 			transport: t,
 			buffer:    gopacket.NewSerializeBuffer(),
-			backoff:   backoff.NewExponentialBackOff(),
+			backoff:   retryBackoff,
 		},
 		timeout: timeout,
 	}
